@@ -745,3 +745,97 @@ V('c20-twin-inline', 'C20', 'R20.1', CONC,
             yield
         finally:
             await self._release_read()''', expect='silent')
+
+# ---------------------------------------------------------------- C14
+V('c14-sleep-in-window', 'C14', 'R14.1', DICTMBX,
+  '''            self._mod_sequences.expunge([uid])
+            self._updated.set()
+        async with destination.messages_lock.write_lock():''',
+  '''            self._mod_sequences.expunge([uid])
+            self._updated.set()
+        await asyncio.sleep(0)
+        async with destination.messages_lock.write_lock():''')
+V('c14-lock-becomes-contended', 'C14', 'R14.1', DICTMBX,
+  '''        async with self.messages_lock.write_lock():
+            for uid in uids:
+                try:
+                    del self._messages[uid]''',
+  '''        async with self.messages_lock.write_lock():
+            await asyncio.sleep(0)
+            for uid in uids:
+                try:
+                    del self._messages[uid]''')
+V('c14-consumer-suspends', 'C14', 'R14.1', DICTMBX,
+  '''        async for msg in self.messages():
+            exists += 1''', '''        async for msg in self.messages():
+            await asyncio.sleep(0)
+            exists += 1''')
+V('c14-maildir-copy-delete', 'C14', 'R14.1', MAILDIRMBX,
+  '''        os.rename(path, dest_path)
+        return name''', '''        shutil.copyfile(path, dest_path)
+        os.remove(path)
+        return name''')
+V('c14-revert-rollback', 'C14', 'R14.2', SESS,
+  '''        except BaseException:
+            # MULTIAPPEND is all-or-nothing, undo the messages already added.
+            await mbx.delete(uids)
+            raise''', '''        except BaseException:
+            raise''')
+V('c14-rollback-swallows', 'C14', 'R14.2', SESS,
+  '''            await mbx.delete(uids)
+            raise
+        return (AppendUid''', '''            await mbx.delete(uids[:-1])
+            pass
+        return (AppendUid''')
+V('c14-raise-after-mutation', 'C14', 'R14.3', SESS,
+  '''        dest = await self._get_mailbox(mailbox, try_create=True)
+        if dest.readonly:
+            raise MailboxReadOnly(mailbox)
+        dest_selected = self._pick_selected(selected, dest)
+        uids: list[tuple[int, int]] = []
+        for _, source_uid in selected.messages.get_uids(sequence_set):
+            dest_uid = await mbx.copy(source_uid, dest,
+                                      recent=not dest_selected)
+            if dest_uid is not None:''',
+  '''        dest = await self._get_mailbox(mailbox, try_create=True)
+        dest_selected = self._pick_selected(selected, dest)
+        uids: list[tuple[int, int]] = []
+        for _, source_uid in selected.messages.get_uids(sequence_set):
+            dest_uid = await mbx.copy(source_uid, dest,
+                                      recent=not dest_selected)
+            if dest.readonly:
+                raise MailboxReadOnly(mailbox)
+            if dest_uid is not None:''')
+# twins
+V('c14-twin-insert-first', 'C14', 'R14.1', DICTMBX,
+  '''        async with self.messages_lock.write_lock():
+            try:
+                message = self._messages.pop(uid)
+            except KeyError:
+                return None
+            self._mod_sequences.expunge([uid])
+            self._updated.set()
+        async with destination.messages_lock.write_lock():
+            destination._max_uid = dest_uid = destination._max_uid + 1
+            new_msg = Message.copy(message, uid=dest_uid, recent=recent)
+            destination._messages[dest_uid] = new_msg
+            destination._mod_sequences.update([dest_uid])
+            destination._updated.set()
+        return dest_uid''',
+  '''        async with self.messages_lock.read_lock():
+            try:
+                message = self._messages[uid]
+            except KeyError:
+                return None
+        async with destination.messages_lock.write_lock():
+            destination._max_uid = dest_uid = destination._max_uid + 1
+            new_msg = Message.copy(message, uid=dest_uid, recent=recent)
+            destination._messages[dest_uid] = new_msg
+            destination._mod_sequences.update([dest_uid])
+            destination._updated.set()
+        await asyncio.sleep(0)
+        async with self.messages_lock.write_lock():
+            if self._messages.pop(uid, None) is not None:
+                self._mod_sequences.expunge([uid])
+                self._updated.set()
+        return dest_uid''', expect='silent')
